@@ -5,10 +5,12 @@ EXTENDS Serde, Conform, Json, IOUtils
 Rec == ndJsonDeserialize(IOEnv.TRACE)
 CONSTANT Checks
 \* tags of known findings: a line rejected only for these is reported (TOLERATED) and the validation continues
-Tolerated == {"tovalue-f32"}
+Tolerated == {"tovalue-f32", "bytes-lone-surrogate"}
 VARIABLE l
 vars == <<l>>
 
+\* a \uD800..\uDFFF escape somewhere in the text
+HasSurrogateEscape(t) == \E i \in 1..(Len(t) - 3) : t[i] = 92 /\ t[i + 1] = 117 /\ t[i + 2] \in {100, 68} /\ t[i + 3] \in {56, 57} \cup (97..102) \cup (65..70)
 DeBad(r) ==
   LET x == r.res
       d == BRun(r.text, FALSE)
@@ -16,10 +18,18 @@ DeBad(r) ==
       desc == Types[r.ty]
       \* documented difference: an f32 target narrows the f64 result (serde_json rejects what does not fit f32)
       f32big == r.ty = "f32" /\ valid /\ d.root.t = "num" /\ Sci(Scan(d.root.lit)) >= 38
+      \* C02 takes precedence over serde_json's laxness: text that is not UTF-8 outside a byte-buffer position may be rejected
+      \* although serde_json, which does not validate the strings it skips, accepts it (r.blobonly: by construction of the
+      \* generator every non-UTF-8 byte of the text is inside a string read into a byte buffer)
+      strictutf8 == ~r.blobonly /\ ~Utf8Valid(r.text) /\ ~x.sonic_ok /\ x.sj_ok
+      differs == x.sonic_ok # x.sj_ok \/ ~x.str_agrees \/ (x.sonic_ok /\ x.sj_ok /\ ~x.equal)
+      \* known finding F27: an unpaired surrogate escape in a string read into a byte buffer
+      lonesur == r.bytesfam /\ HasSurrogateEscape(r.text) /\ ~x.sonic_ok /\ x.sj_ok
   IN IF x.panic THEN {"panic"}
-     ELSE IF f32big THEN {}
-     ELSE {c \in {"diff", "model"} :
-        \/ (c = "diff" /\ (x.sonic_ok # x.sj_ok \/ ~x.str_agrees \/ (x.sonic_ok /\ x.sj_ok /\ ~x.equal)))
+     ELSE IF f32big \/ strictutf8 THEN {}
+     ELSE {c \in {"diff", "bytes-lone-surrogate", "model"} :
+        \/ (c = "diff" /\ differs /\ ~lonesur)
+        \/ (c = "bytes-lone-surrogate" /\ differs /\ lonesur)
         \* the model is compared with serde_json on well-formed text of the modelled family
         \/ (c = "model" /\ valid /\ desc.k # "opaque" /\ Accepts(desc, Strip(d.root)) # x.sj_ok)}
 
@@ -30,6 +40,8 @@ ConvBad(r) ==
        IN {c \in {"text", "dom", "tovalue", "tovalue-f32", "eq", "back_text", "back_dom"} :
         \/ (c = "text" /\ ~r.text.ok)
         \/ (c = "dom" /\ ~r.dom.ok /\ ~wide)
+        \* a 128-bit integer has a DOM form exactly when it fits i64 or u64
+        \/ (c = "dom" /\ r.ty \in {"u128", "i128"} /\ r.text.ok /\ r.dom.ok # (IntAccepts(64, TRUE, r.text.b) = "yes" \/ IntAccepts(64, FALSE, r.text.b) = "yes"))
         \/ (c = "tovalue" /\ r.ty # "f32" /\ r.text.ok /\ r.dom.ok /\ ~(d.s.m = "end" /\ ValMatchesU(d.root, r.dom.dump)))
         \/ (c = "tovalue-f32" /\ r.ty = "f32" /\ r.text.ok /\ r.dom.ok /\ ~(d.s.m = "end" /\ ValMatchesU(d.root, r.dom.dump)))
         \/ (c = "eq" /\ r.ty # "f32" /\ r.text.ok /\ r.dom.ok /\ ~(r.dom.eq_parsed[1] /\ r.dom.eq_parsed[2]))
